@@ -79,7 +79,7 @@ def host_list_spec(r, lo=0, hi=6, depth=1, floats=False):
 
 def host_dict_spec(r, lo=0, hi=5, depth=1, floats=False):
     n = r.randint(lo, hi)
-    keys = r.sample(['a', 'b', 'c', '1', '2', 'k', '1.0', 'True', 'None', '-1', 'x y'], n)
+    keys = r.sample(['a', 'b', 'c', '1', '2', 'k', '1.0', 'True', 'None', '-1', 'x y', 'e\u0301', '\u212b', '1E-7', '0.0000001'], n)
     return {'m': [[k, host_value_spec(r, depth, floats)] for k in keys]}
 
 
